@@ -21,10 +21,10 @@ RULE = ("histories = 1-3 Model subclass hierarchies of depth 0-6 built with type
         "placed AFTER Model in the bases (must never run) + 1-4 instances (several of one class too) + 4-30 interleaved "
         "step(*args, **kwargs) calls with matching and mismatching argument lists (0-3, sometimes 6 arguments; in 30 % of the "
         "histories the arguments are twelve exotic objects - None, float, str, tuple, bool, 2**70, numpy scalar, 0-d array, [], dict, "
-        "Decimal, Fraction - mapped back by identity), run_model() and running = True/False, pickle round trips (protocols 0-5 and "
+        "Decimal, Fraction - mapped back by identity), run_model() and running = True/False (also numpy bools, ints, str, None as the flag), pickle round trips (protocols 0-5 and "
         "default, directly or through a pickled agent / AgentSet of the model) and deepcopies of an instance mid-history with stepping "
         "continuing on the copy and on the original, continuing after TypeError and user "
-        "exceptions; every body logs self.steps, self.running and its arguments; the first part of every run enumerates all "
+        "exceptions; a SCALE stream in every run (counters crossing 256 / 257 / 1000 / 1024 - 17 thresholds from 8 to 1025 in the thorough tier and whenever the source moved - through run_model up to a stop threshold, direct step() calls across it, pickled / deep-copied instances stepped further, run_model again, inherited and super-called steps); every body logs self.steps, self.running and its arguments; the first part of every run enumerates all "
         "hierarchies of depth <= 3 over 10 level kinds (depth 4 in the thorough tier); non-trivial = at least 2 step/run_model calls "
         "of which one executed user code; distinct = by SHA1 of the history")
 TRUSTED_BASE = [
@@ -164,7 +164,8 @@ def _gen_history(rng):
             ops.append(["clone", i, rng.choice(CLONE_KINDS)])
             inst_cls.append(inst_cls[i])
         elif r < 0.93:
-            ops.append(["set_running", i, rng.random() < 0.6])
+            # `running` is any object with a truth value: also numpy bools, a remaining-rounds int, a str, None
+            ops.append(["set_running", i, rng.random() < 0.6, rng.randrange(5) if rng.random() < 0.5 else 0])
         elif len(inst_cls) < 4:
             c = rng.randrange(ncls)
             ops.append(["new", c])
@@ -204,8 +205,34 @@ def _all_shapes(depth):
         yield from itertools.product(range(len(_KINDS)), repeat=d)
 
 
+# ---- SCALE stream (harness/SCALE_NOTE.md): counters that CROSS 8, 16, ..., 255/256/257 (CPython's small-int cache: `is` instead of
+# `==` works below), 1000/1001, 1024/1025, ... through every stepping path: run_model up to a stop threshold, direct step() calls
+# across it, copies (pickle / deepcopy) stepped further, run_model again, a super-called level and an inherited step.
+SCALE_QUICK = [256, 257, 1000, 1024]
+SCALE_THOROUGH = [8, 16, 32, 64, 100, 128, 129, 255, 256, 257, 258, 512, 513, 1000, 1001, 1024, 1025]
+
+
+def _scale_case(t, variant):
+    top = _lvl(True, -1, sup=True, fwd=False, stop=t - 2)
+    levels = {0: [top], 1: [_lvl(False), top, _lvl(True, 0, stop=t + 3)], 2: [_lvl(True, 0, sup=True, stop=t - 2), _lvl(True, -1)]}[variant % 3]
+    far = [_lvl(True, -1, stop=t + 2)]
+    kinds = CLONE_KINDS
+    ops = [["new", 0], ["new", 1], ["run", 0, t + 5],                      # -> steps = t - 2 through run_model
+           ["step", 0, [], 0], ["step", 0, [], 0], ["step", 0, [], 0],    # t - 1, t, t + 1 through direct calls
+           ["clone", 0, kinds[t % len(kinds)]], ["step", 2, [], 0], ["step", 2, [], 0],
+           ["set_running", 0, True, 1], ["run", 0, 5], ["set_running", 2, True, 3], ["run", 2, 5],
+           ["run", 1, t + 8],                                             # 0 -> t + 2 in one run_model
+           ["clone", 1, "deepcopy"], ["step", 3, [7], 0], ["step", 1, [7, 8], 1], ["step", 0, [], 0]]
+    return {"classes": [levels, far], "ops": ops, "scale": t}
+
+
+def _scale_cases(tier):
+    ts = SCALE_QUICK if tier == "quick" else SCALE_THOROUGH
+    return [_scale_case(t, i) for i, t in enumerate(ts)]
+
+
 def gen_cases(rng, tier):
-    cases = [_shape_case(s, 0) for s in _all_shapes(3)]
+    cases = _scale_cases(tier) + [_shape_case(s, 0) for s in _all_shapes(3)]
     n = 400 if tier == "quick" else 8000
     for _ in range(n):
         cases.append(_gen_history(rng))
@@ -214,6 +241,8 @@ def gen_cases(rng, tier):
 
 def enumerate_cases(tier, broken=False):
     """all hierarchies of depth <= 3 (4 in the thorough tier) over the 10 level kinds, second call pattern"""
+    if broken:
+        yield from _scale_cases("thorough")
     for s in _all_shapes(4 if tier == "thorough" else 3):
         yield _shape_case(s, 1)
         if len(s) == 4:
@@ -458,7 +487,10 @@ class _Driver:
         before = self.states()
         s0 = before[i][0]
         if kind == "set_running":
-            m.running = bool(op[2])
+            import numpy as np
+
+            k = op[3] if len(op) > 3 else 0
+            m.running = ([True, np.bool_(True), 1, 3, "yes"] if op[2] else [False, np.bool_(False), 0, None, ""])[k % 5]
             return [0]
         if kind == "clone":
             import copy
@@ -624,12 +656,14 @@ def coq_case(case):
 
 
 def op_kinds(case):
-    out = []
+    out = [f"scale/{case['scale']}steps"] if case.get("scale") else []
     for op in case["ops"]:
         if op[0] == "step":
             out.append(f"step/{len(op[2])}args/{op[3]}kw")
         elif op[0] == "clone":
             out.append(f"clone/{op[2]}")
+        elif op[0] == "set_running":
+            out.append(f"set_running/{op[2]}/kind{op[3] if len(op) > 3 else 0}")
         else:
             out.append(op[0])
     for ci, c in enumerate(case["classes"]):
